@@ -132,6 +132,11 @@ func newL1World(r *core.Run, p *l1Profile) *l1World {
 	}
 	nd := 1 + r.Intn(3)
 	w.denoms = []string{"uinit", "uusdc", "ibc/27394FB092D2ECCD56123C74F36E4C1F926001CEADA9CA97EA622B25F41E5EB2"}[:nd]
+	if r.Chance(1, 4) {
+		// denoms of the greatest length the bank accepts (128), differing in the last character only, and one of 127
+		long := "factory/" + strings.Repeat("x", 119)
+		w.denoms = append(w.denoms, long+"a", long+"b", long)
+	}
 	w.now = simEpoch.Add(epochShift(r)).Add(time.Duration(r.Intn(1000)) * time.Millisecond)
 	bal := map[string]sdk.Coins{}
 	gov := authtypes.NewModuleAddress("gov").String()
@@ -651,7 +656,52 @@ func (w *l1World) genClaim(spec *modelL1, bc blockCtx) (sdk.Msg, string) {
 	}
 	var tags []string
 	for k := 0; k < np; k++ {
-		switch w.r.Intn(21) {
+		switch w.r.Intn(23) {
+		case 21:
+			// a fixed-size field one or more bytes too long / one byte short (the commitment is over exactly 1+32+32 bytes)
+			ext := func(bz []byte) []byte {
+				if w.r.Chance(1, 4) && len(bz) > 0 {
+					return bz[:len(bz)-1]
+				}
+				for k := 1 + w.r.Intn(8); k > 0; k-- {
+					bz = append(bz, byte(w.r.Intn(256)))
+				}
+				return bz
+			}
+			switch w.r.Intn(3) {
+			case 0:
+				msg.LastBlockHash = ext(append([]byte{}, msg.LastBlockHash...))
+			case 1:
+				msg.StorageRoot = ext(append([]byte{}, msg.StorageRoot...))
+			default:
+				msg.Version = ext(append([]byte{}, msg.Version...))
+			}
+			tags = append(tags, "resize-fixed-field")
+		case 22:
+			// the same string in another letter case (bech32 is case-insensitive as an address, the leaf is not)
+			recase := func(s string) string {
+				if w.r.Chance(1, 2) {
+					return strings.ToUpper(s)
+				}
+				bz := []byte(s)
+				for try := 0; try < 8 && len(bz) > 0; try++ {
+					i := w.r.Intn(len(bz))
+					if bz[i] >= 'a' && bz[i] <= 'z' {
+						bz[i] -= 32
+						break
+					}
+				}
+				return string(bz)
+			}
+			switch w.r.Intn(3) {
+			case 0:
+				msg.From = recase(msg.From)
+			case 1:
+				msg.To = recase(msg.To)
+			default:
+				msg.Amount.Denom = recase(msg.Amount.Denom)
+			}
+			tags = append(tags, "other-letter-case")
 		case 20:
 			// a withdrawal of some other commitment the proposer once built for this bridge (e.g. one whose
 			// proposal was rejected or rolled back), offered against the current output
@@ -680,7 +730,9 @@ func (w *l1World) genClaim(spec *modelL1, bc blockCtx) (sdk.Msg, string) {
 			flip(msg.LastBlockHash)
 			tags = append(tags, "flip-block-hash")
 		case 2:
-			msg.Version = []byte{msg.Version[0] ^ byte(1+w.r.Intn(255))}
+			if len(msg.Version) > 0 {
+				msg.Version = []byte{msg.Version[0] ^ byte(1+w.r.Intn(255))}
+			}
 			tags = append(tags, "other-version")
 		case 3:
 			if len(msg.WithdrawalProofs) > 0 {
